@@ -534,7 +534,7 @@ func (x *Exec) builtin(fr *Frame, st *State, in ssa.Instruction, b *ssa.Builtin,
 			r := s
 			et := sliceElem(s.Typ)
 			for i := int64(0); i < e.Len.Num.Int64(); i++ {
-				ev := st.loadElem(et, e.T, Add(e.Off, Num(i)), "", et)
+				ev := st.loadElem(et, e.T, ElemIdx(e.Off, Num(i)), "", et)
 				r = x.appendOne(st, r, ev)
 			}
 			return r
@@ -546,8 +546,8 @@ func (x *Exec) builtin(fr *Frame, st *State, in ssa.Instruction, b *ssa.Builtin,
 			key, h := st.heapArr(et, l, true)
 			row := Const(freshName("app"), SArr(SInt, l.Sort))
 			j := Bound("j", SInt)
-			st.Assume(Forall([]*Term{j}, Implies(And(Ge(j, Num(0)), Lt(j, s.Len)), Eq(Select(row, j), Select(Select(h, s.T), Add(s.Off, j)))), []*Term{Select(row, j)}))
-			st.Assume(Forall([]*Term{j}, Implies(And(Ge(j, Num(0)), Lt(j, e.Len)), Eq(Select(row, Add(s.Len, j)), Select(Select(h, e.T), Add(e.Off, j)))), []*Term{Select(Select(h, e.T), Add(e.Off, j))}))
+			st.Assume(Forall([]*Term{j}, Implies(And(Ge(j, Num(0)), Lt(j, s.Len)), Eq(Select(row, j), Select(Select(h, s.T), ElemIdx(s.Off, j)))), []*Term{Select(row, j)}))
+			st.Assume(Forall([]*Term{j}, Implies(And(Ge(j, Num(0)), Lt(j, e.Len)), Eq(Select(row, Add(s.Len, j)), Select(Select(h, e.T), ElemIdx(e.Off, j)))), []*Term{Select(Select(h, e.T), ElemIdx(e.Off, j))}))
 			st.setHeap(key, Store(h, ref, row))
 		}
 		return &Val{K: VSlice, Typ: s.Typ, T: ref, Off: Num(0), Len: Add(s.Len, e.Len)}
